@@ -291,6 +291,7 @@ fn parse_rules(schema: &str) -> Vec<RuleLine> {
     let mut self_applied = false;
     let mut generic_stack: Vec<String> = Vec::new();
     let mut last_ident = String::new();
+    let mut paren_stack: Vec<bool> = Vec::new();
     let cs: Vec<char> = rhs.chars().collect();
     let mut i = 0;
     while i <= cs.len() {
@@ -317,8 +318,34 @@ fn parse_rules(schema: &str) -> Vec<RuleLine> {
         }
         match c {
           '"' => in_str = true,
-          '[' | '{' | '(' => depth += 1,
-          ']' | '}' | ')' => depth -= 1,
+          '[' | '{' => depth += 1,
+          ']' | '}' => depth -= 1,
+          // a parenthesis guards only when it is a group with member keys (it then consumes a map entry);
+          // a parenthesised type is mere grouping
+          '(' => {
+            let mut d = 1;
+            let mut keyed = false;
+            let mut j = i + 1;
+            while j < cs.len() && d > 0 {
+              match cs[j] {
+                '(' | '[' | '{' => d += 1,
+                ')' | ']' | '}' => d -= 1,
+                ':' if d == 1 => keyed = true,
+                '=' if d == 1 && j + 1 < cs.len() && cs[j + 1] == '>' => keyed = true,
+                _ => {}
+              }
+              j += 1;
+            }
+            paren_stack.push(keyed);
+            if keyed {
+              depth += 1;
+            }
+          }
+          ')' => {
+            if paren_stack.pop().unwrap_or(false) {
+              depth -= 1;
+            }
+          }
           '<' => {
             if generic_stack.contains(&last_ident) {
               self_applied = true;
@@ -493,6 +520,7 @@ pub fn predicate(name: &str, v: &Violation) -> bool {
     "cycle_or_self_application" => unguarded_rule_cycle(&schema) || generic_self_application(&schema),
     "uri_prelude_panic_in_uriparse" => schema.contains("uri") && v.detail.contains("uriparse-"),
     "abnf_control" => schema.contains(".abnf"),
+    "leftover_entry_state_debug_assert" => v.detail.contains("assertion failed: self.object_value.is_none()") || v.detail.contains("assertion failed: self.map_entry_candidates.is_none()"),
     "time_prelude" => schema.contains("time"),
     "always" => true,
     _ => false,
